@@ -46,7 +46,7 @@ package compress
 //@   requires m <= 3
 //@   maypanic
 //@   ensures w != nil && w.method == m && (m == LZ4 ==> w.lz4 != nil) && (m == LZ4HC ==> w.lz4hc != nil) && (m == ZSTD ==> w.zstd != nil) {holds-the-encoder-of-its-method}
-//@ contract (w *Writer) Compress(buf) (err) props(C02,C05)
+//@ contract (w *Writer) Compress(buf) (err) props(C02,C05,C09)
 //@   requires w != nil
 //@   modifies w.Data
 //@   ensures err == nil ==> len(w.Data) >= headerSize {frame-min}
